@@ -19,6 +19,7 @@ use std::future::Future;
 use std::io;
 use std::net::SocketAddr;
 use std::pin::Pin;
+use std::str::FromStr;
 use std::sync::atomic::{AtomicBool, Ordering};
 use std::sync::{Arc, Mutex};
 use std::task::{Context, Poll};
@@ -1050,6 +1051,13 @@ fn main() {
         udp_cases.push(UdpCase { id: 0x1000 + udp_cases.len() as u16, b2: 1, labels, qtype: 16, client, cfg,
             resp: Resp { aa: true, b3: 0, n_an: 1, an_len: (total - fixed) as u16, n_ar: 0, ar_len: 11, opt: client.map(|_| (1232, 0)) } });
     }
+    // hand-over of the negotiated size: client below the configured limit, response between the two
+    for (client, cfg, total) in [(600u16, 1232u16, 900usize), (600, 4096, 601), (600, 4096, 600), (512, 1232, 1000), (1000, 4096, 1001)] {
+        let labels = vec![5usize];
+        let fixed = 12 + qlen_of(&labels) + 11;
+        udp_cases.push(UdpCase { id: 0x1080 + udp_cases.len() as u16, b2: 1, labels, qtype: 1, client: Some(client), cfg: Some(cfg),
+            resp: Resp { aa: false, b3: 0, n_an: 1, an_len: (total - fixed) as u16, n_ar: 0, ar_len: 11, opt: Some((1232, 0)) } });
+    }
     udp_cases.push(UdpCase { id: 0x1100, b2: 0, labels: vec![3], qtype: 1, client: Some(512), cfg: Some(1232),
         resp: Resp { aa: false, b3: 0, n_an: 2, an_len: 100, n_ar: 0, ar_len: 11, opt: Some((1232, 604)) } });
     udp_cases.push(UdpCase { id: 0x1101, b2: 0, labels: vec![63, 63, 63, 61], qtype: 1, client: Some(512), cfg: Some(512),
@@ -1201,6 +1209,10 @@ fn main() {
         push(&|c| { c.svc = SvcSpec::Err(2); });
         push(&|c| { c.b2 = 0x80; });
         push(&|c| { c.nq = 3; });
+        // the largest message a frame can carry, and one octet less (request without OPT: nothing is added)
+        push(&|c| { c.opt = OptSpec::None; c.svc = SvcSpec::Ok(Resp { n_an: 1, an_len: 65_514, ..Resp::small() }); });
+        push(&|c| { c.opt = OptSpec::None; c.svc = SvcSpec::Ok(Resp { n_an: 1, an_len: 65_513, ..Resp::small() }); });
+        push(&|c| { c.opt = OptSpec::None; c.svc = SvcSpec::Ok(Resp { n_an: 2, an_len: 32_757, ..Resp::small() }); });
     }
     for i in 0..n_tcp { tcp_cases.push(gen_tcp_case(&mut r, (0x3900 + i) as u16)); }
 
@@ -1233,6 +1245,8 @@ fn main() {
     phase!("conn cases", recs => run_conn_cases(&mut recs, conn_cases, &mut idx, only));
     phase!("dgram rounds", recs => run_dgram(&mut recs, &mut rr, n_dg, &mut idx, only));
     phase!("cookies rounds", recs => run_cookies(&mut recs, &mut rr, n_dg * 2, &mut idx, only));
+    phase!("full stack rounds", recs => run_full_stack(&mut recs, &mut rr, if a.thorough { 120 } else { 16 } * scale, &mut idx, only));
+    phase!("stream big frames", recs => run_big_frames(&mut recs, &mut idx, only));
     phase!("stream rounds", recs => run_stream(&mut recs, &mut rr, n_st, &mut idx, only));
     for (n, d) in [(10usize, 0u64), (11, 0), (40, 0), (10, 25), (12, 25)] { phase!("stream burst", recs => run_burst(&mut recs, n, d, &mut idx, only)); }
     // ---- slow reader against a one-slot response queue (virtual time)
@@ -1593,6 +1607,254 @@ async fn run_cookies(recs: &mut Vec<Rec>, r: &mut Rng, rounds: u64, idx: &mut u6
         chk(recs, fin.iter().any(|(_, d)| d.len() >= 2 && d[0] == 0xfe && d[1] == 0xfe) && !handle.is_finished() && !PANICKED.load(Ordering::SeqCst),
             "panic_server", &desc, "server dead or a task panicked after this round".into());
         let _ = srv.shutdown();
+        settle(5).await;
+    }
+}
+
+/// responses of exactly 65535 octets (the largest a frame can carry), an attempt at
+/// 65536 / 65537 (the service's builder refuses the push: SERVFAIL via the invoker)
+/// and small ones, pipelined on one connection: every frame's prefix is its length,
+/// and the frames after a maximal one are intact
+async fn run_big_frames(recs: &mut Vec<Rec>, idx: &mut u64, only: Option<u64>) {
+    *idx += 1;
+    if only.map_or(false, |o| o != *idx) { return; }
+    let srv = start_stream();
+    let mut client = srv.listener.connect(5100);
+    // qname "aaa": question 9 octets, header 12 => answers of 65514 octets make 65535
+    let sizes: [(u16, u16, usize); 7] = [(1, 65_514, 65_535), (1, 15, 36), (1, 65_515, 0), (1, 65_516, 0), (2, 32_757, 65_535), (1, 65_513, 65_534), (1, 15, 36)];
+    let mut bytes = vec![];
+    for (j, (n_an, an_len, _)) in sizes.iter().enumerate() {
+        let id = 0x6c00 + j as u16;
+        srv.sh.table.lock().unwrap().insert(id, Beh::single(Resp { n_an: *n_an, an_len: *an_len, ..Resp::small() }));
+        let q = mk_query(id, 1, &[3], 1, None);
+        bytes.push(0); bytes.push(q.len() as u8); bytes.extend_from_slice(&q);
+    }
+    let _ = client.write_all(&bytes).await;
+    let (got, closed) = drain(&mut client, 500).await;
+    let (frames, leftover) = split_stream(&got);
+    let case = "stream big frames: pipelined responses of 65535, 36, (65536), (65537), 65535, 65534, 36 octets".to_string();
+    recs.push(Rec::Oracle(case.clone(), "stream_big_frames"));
+    chk(recs, leftover == 0 && !closed, "framing_wrong", &case, format!("{} octets after the last complete frame, closed={}", leftover, closed));
+    chk(recs, frames.len() == sizes.len(), "missing_response", &case, format!("{} frames for {} requests", frames.len(), sizes.len()));
+    for (j, (_, _, want)) in sizes.iter().enumerate() {
+        let id = 0x6c00 + j as u16;
+        let mine: Vec<&Vec<u8>> = frames.iter().filter(|f| f.len() >= 2 && f[0] == (id >> 8) as u8 && f[1] == id as u8).collect();
+        chk(recs, mine.len() == 1, "framing_wrong", &case, format!("request #{}: {} frames carry its id", j, mine.len()));
+        for f in mine {
+            chk(recs, f.len() <= 65_535 && view(f).is_some(), "framing_wrong", &case, format!("request #{}: frame of {} octets does not parse", j, f.len()));
+            if *want > 0 { chk(recs, f.len() == *want, "framing_wrong", &case, format!("request #{}: frame of {} octets, expected {}", j, f.len(), want)); }
+            else { chk(recs, f.len() < 100 && f[3] & 15 == 2, "framing_wrong", &case, format!("request #{}: a message past 65535 octets cannot exist, got {} octets rcode {}", j, f.len(), f[3] & 15)); }
+        }
+    }
+}
+
+// ------------------------------------------- the full middleware chain (oracle only)
+
+mod full {
+    use super::*;
+    use domain::base::iana::Class as IClass;
+    use domain::base::Serial;
+    use domain::net::server::middleware::notify::{Notifiable, NotifyError, NotifyMiddlewareSvc};
+    use domain::net::server::middleware::tsig::TsigMiddlewareSvc;
+    use domain::net::server::middleware::xfr::{XfrData, XfrDataProvider, XfrDataProviderError, XfrMiddlewareSvc};
+    use domain::tsig::{Algorithm, Key, KeyName};
+    use domain::zonefile::inplace::Zonefile;
+    use domain::zonetree::types::EmptyZoneDiff;
+    use domain::zonetree::Zone;
+    use futures_util::stream::Once;
+    use std::future::Ready;
+
+    /// a service whose future and stream are Sync (the XFR / NOTIFY layers ask for that)
+    #[derive(Clone)]
+    pub struct SyncSvc { pub sh: Shared }
+    impl Service<Vec<u8>, Option<Key>> for SyncSvc {
+        type Target = Vec<u8>;
+        type Stream = Once<Ready<ServiceResult<Vec<u8>>>>;
+        type Future = Ready<Self::Stream>;
+        fn call(&self, request: Request<Vec<u8>, Option<Key>>) -> Self::Future {
+            let msg = request.message().clone();
+            let id = msg.header().id();
+            self.sh.calls.lock().unwrap().push((id, msg.as_slice().len()));
+            let r = match self.sh.table.lock().unwrap().get(&id).and_then(|b| b.items.first().cloned()) { Some(Ok(r)) => r, _ => Resp::small() };
+            let item = match build_resp(&msg, &r) { Ok(b) => Ok(CallResult::new(b)), Err(_) => Err(ServiceError::InternalError) };
+            std::future::ready(futures_util::stream::once(std::future::ready(item)))
+        }
+    }
+
+    #[derive(Clone)]
+    pub struct Xdp { pub zone: Zone }
+    impl XfrDataProvider<Option<Key>> for Xdp {
+        type Diff = EmptyZoneDiff;
+        fn request<Octs>(&self, req: &Request<Octs, Option<Key>>, _diff_from: Option<Serial>)
+            -> Pin<Box<dyn Future<Output = Result<XfrData<Self::Diff>, XfrDataProviderError>> + Sync + Send + '_>>
+        where Octs: domain::dep::octseq::Octets + Send + Sync {
+            let res = req.message().sole_question().map_err(XfrDataProviderError::ParseError).and_then(|q| {
+                if q.qname().to_string().eq_ignore_ascii_case("example.com") && q.qclass() == IClass::IN { Ok(XfrData::new(self.zone.clone(), vec![], false)) }
+                else { Err(XfrDataProviderError::UnknownZone) }
+            });
+            Box::pin(std::future::ready(res))
+        }
+    }
+
+    #[derive(Clone)]
+    pub struct Target;
+    impl Notifiable for Target {
+        fn notify_zone_changed(&self, _class: IClass, apex: &Name<bytes::Bytes>, _serial: Option<Serial>, _source: std::net::IpAddr)
+            -> Pin<Box<dyn Future<Output = Result<(), NotifyError>> + Sync + Send + '_>> {
+            let ok = apex.to_string().eq_ignore_ascii_case("example.com");
+            Box::pin(std::future::ready(if ok { Ok(()) } else { Err(NotifyError::NotAuthForZone) }))
+        }
+    }
+
+    pub const N_TXT: usize = 700;
+    pub fn zone() -> Zone {
+        let mut text = String::from("example.com. 3600 IN SOA ns.example.com. host.example.com. 2024010101 3600 900 604800 300\nexample.com. 3600 IN NS ns.example.com.\nns.example.com. 3600 IN A 192.0.2.1\n");
+        for i in 0..N_TXT { text.push_str(&format!("t{}.example.com. 3600 IN TXT \"{}\"\n", i, "x".repeat(200))); }
+        let mut reader = std::io::BufReader::new(text.as_bytes());
+        let zf = Zonefile::load(&mut reader).unwrap();
+        Zone::try_from(zf).map_err(|_| ()).unwrap()
+    }
+
+    pub fn key() -> Key {
+        Key::new(Algorithm::Sha256, &[7u8; 32], KeyName::from_str("demo-key").unwrap(), None, None).unwrap()
+    }
+
+    /// Mandatory(Tsig(Edns(Cookies(Notify(Xfr(service)))))) as in examples/serve-zone.rs
+    pub fn stack(sh: &Shared, zone: Zone) -> impl Service<Vec<u8>, ()> + Clone {
+        let svc = SyncSvc { sh: sh.clone() };
+        let svc = XfrMiddlewareSvc::<Vec<u8>, _, Option<Key>, _>::new(svc, Xdp { zone }, 1);
+        let svc = NotifyMiddlewareSvc::new(svc, Target);
+        let svc = CookiesMiddlewareSvc::new(svc, COOKIE_SECRET).with_denied_ips([denied_addr().ip()]);
+        let svc = EdnsMiddlewareSvc::new(svc);
+        let mut store = HashMap::new();
+        let k = key();
+        store.insert((k.name().clone(), k.algorithm()), k);
+        let svc = TsigMiddlewareSvc::<Vec<u8>, _, _, ()>::new(svc, Arc::new(store));
+        Arc::new(MandatoryMiddlewareSvc::new(svc))
+    }
+}
+
+/// a query for example.com with the given opcode / qtype, optional OPT, optional trailing (garbage) TSIG record
+fn full_query(id: u16, opcode: u8, qname: &[&str], qtype: u16, client: Option<u16>, tsig_garbage: bool) -> Vec<u8> {
+    let ar = client.is_some() as u8 + tsig_garbage as u8;
+    let mut v = vec![(id >> 8) as u8, id as u8, opcode << 3, 0, 0, 1, 0, 0, 0, 0, 0, ar];
+    for l in qname { v.push(l.len() as u8); v.extend_from_slice(l.as_bytes()); }
+    v.push(0);
+    v.extend_from_slice(&[(qtype >> 8) as u8, qtype as u8, 0, 1]);
+    if let Some(c) = client { v.extend_from_slice(&[0, 0, 41, (c >> 8) as u8, c as u8, 0, 0, 0, 0, 0, 0]); }
+    if tsig_garbage {
+        // owner "demo-key", type TSIG (250), class ANY, ttl 0, rdata: hmac-sha256. time fudge mac(32 zero octets) id error other
+        v.extend_from_slice(&[8]); v.extend_from_slice(b"demo-key"); v.push(0);
+        v.extend_from_slice(&[0, 250, 0, 255, 0, 0, 0, 0]);
+        let mut rd = vec![11]; rd.extend_from_slice(b"hmac-sha256"); rd.push(0);
+        rd.extend_from_slice(&[0, 0, 0x65, 0, 0, 0, 1, 44, 0, 32]); rd.extend_from_slice(&[0u8; 32]);
+        rd.extend_from_slice(&[(id >> 8) as u8, id as u8, 0, 0, 0, 0]);
+        v.push((rd.len() >> 8) as u8); v.push(rd.len() as u8); v.extend_from_slice(&rd);
+    }
+    v
+}
+
+/// TSIG / NOTIFY / XFR middleware in the chain: framing and size limits still hold
+async fn run_full_stack(recs: &mut Vec<Rec>, r: &mut Rng, rounds: u64, idx: &mut u64, only: Option<u64>) {
+    let zone = full::zone();
+    for round in 0..rounds {
+        *idx += 1;
+        if only.map_or(false, |o| o != *idx) { continue; }
+        PANICKED.store(false, Ordering::SeqCst);
+        let sh = Shared::default();
+        // ---- stream: pipelined ordinary queries, AXFR, NOTIFY, a request with a bad TSIG
+        let srv = Arc::new(StreamServer::new(MockListener::default(), VecBufSource, full::stack(&sh, zone.clone())));
+        let listener = srv.source();
+        let s2 = srv.clone();
+        let handle = tokio::spawn(async move { s2.run().await });
+        let mut client = listener.connect(5200 + round as u16);
+        let mut kinds: Vec<(u16, &'static str)> = vec![];
+        let mut bytes = vec![];
+        let k = r.range(3, 7);
+        for j in 0..k {
+            let id = 0x7000 + (round * 8 + j) as u16;
+            let (q, kind) = match r.below(6) {
+                0 => (full_query(id, 0, &["example", "com"], 252, None, false), "axfr"),
+                1 => (full_query(id, 4, &["example", "com"], 6, None, false), "notify"),
+                2 => (full_query(id, 4, &["other", "org"], 6, None, false), "notify_other"),
+                3 => (full_query(id, 0, &["www", "example", "com"], 1, Some(1232), true), "bad_tsig"),
+                4 => (full_query(id, 0, &["example", "com"], 251, None, false), "ixfr_no_soa"),
+                _ => (full_query(id, 0, &["www", "example", "com"], 1, if r.chance(1, 2) { Some(pick_size(r)) } else { None }, false), "query"),
+            };
+            let near = *r.pick(&[100usize, 2000, 60_000]);
+            sh.table.lock().unwrap().insert(id, Beh::single(pick_resp(r, near, 21)));
+            bytes.push((q.len() >> 8) as u8); bytes.push(q.len() as u8); bytes.extend_from_slice(&q);
+            kinds.push((id, kind));
+        }
+        let desc = format!("full stack round={} stream {:?}", round, kinds);
+        let _ = client.write_all(&bytes).await;
+        let (got, closed) = drain(&mut client, 1000).await;
+        let (frames, leftover) = split_stream(&got);
+        recs.push(Rec::Oracle(desc.clone(), "full_stack_round"));
+        chk(recs, leftover == 0 && !closed, "framing_wrong", &desc, format!("{} octets after the last complete frame, closed={}", leftover, closed));
+        chk(recs, !handle.is_finished() && !PANICKED.load(Ordering::SeqCst), "panic_server", &desc, "a server task ended or panicked".into());
+        for f in &frames { chk(recs, f.len() <= 65_535 && view(f).is_some(), "framing_wrong", &desc, format!("a frame of {} octets does not parse", f.len())); }
+        for (id, kind) in &kinds {
+            let mine: Vec<&Vec<u8>> = frames.iter().filter(|f| f.len() >= 2 && f[0] == (*id >> 8) as u8 && f[1] == *id as u8).collect();
+            recs.push(Rec::Count(match *kind { "axfr" => "full_axfr", "notify" | "notify_other" => "full_notify", "bad_tsig" => "full_bad_tsig", "ixfr_no_soa" => "full_ixfr", _ => "full_query" }));
+            if *kind == "axfr" {
+                // the whole zone, SOA first and last, over as many frames as it takes
+                let total: usize = mine.iter().map(|f| ((f[6] as usize) << 8) | f[7] as usize).sum();
+                chk(recs, mine.len() >= 2 && total == full::N_TXT + 4, "xfr_incomplete", &desc, format!("AXFR id {}: {} frames, {} records (zone has {} + closing SOA)", id, mine.len(), total, full::N_TXT + 3));
+            } else {
+                chk(recs, mine.len() >= 1, "missing_response", &desc, format!("{} id {}: no response", kind, id));
+                chk(recs, mine.len() <= 1, "duplicate_response", &desc, format!("{} id {}: {} responses", kind, id, mine.len()));
+            }
+        }
+        let claimed = frames.iter().filter(|f| f.len() >= 2 && kinds.iter().any(|(id, _)| f[0] == (*id >> 8) as u8 && f[1] == *id as u8)).count();
+        chk(recs, claimed == frames.len(), "id_mismatch", &desc, format!("{} frames, {} carry a request id", frames.len(), claimed));
+        drop(client);
+        let _ = srv.shutdown();
+        settle(5).await;
+        // ---- datagrams: the same request kinds; every response within the property text's limit
+        let cfg_in = *r.pick(&[None, Some(512u16), Some(1232), Some(4096)]);
+        let mut config = dgram::Config::new();
+        config.set_max_response_size(cfg_in);
+        let cfg = cfg_in;
+        let dsrv = Arc::new(DgramServer::with_config(MockSock::default(), VecBufSource, full::stack(&sh, zone.clone()), config));
+        let sock = dsrv.source();
+        let d2 = dsrv.clone();
+        let dh = tokio::spawn(async move { d2.run().await });
+        let mut sent: Vec<(u16, Vec<u8>, Option<u16>, &'static str)> = vec![];
+        for j in 0..r.range(3, 7) {
+            let id = 0x7800 + (round * 8 + j) as u16;
+            let client = if r.chance(1, 2) { Some(pick_size(r)) } else { None };
+            let (q, kind) = match r.below(5) {
+                0 => (full_query(id, 0, &["example", "com"], 252, client, false), "axfr"),
+                1 => (full_query(id, 4, &["example", "com"], 6, client, false), "notify"),
+                2 => (full_query(id, 0, &["www", "example", "com"], 1, client, true), "bad_tsig"),
+                3 => (full_query(id, 0, &["example", "com"], 251, client, false), "ixfr_no_soa"),
+                _ => (full_query(id, 0, &["www", "example", "com"], 1, client, false), "query"),
+            };
+            sh.table.lock().unwrap().insert(id, Beh::single(pick_resp(r, text_limit(client, cfg), 21)));
+            sock.inject(q.clone(), client_addr());
+            sent.push((id, q, client, kind));
+        }
+        settle(300).await;
+        let outv = sock.take_out();
+        let ddesc = format!("full stack round={} dgram cfg={}", round, opt_str(cfg));
+        chk(recs, !dh.is_finished() && !PANICKED.load(Ordering::SeqCst), "panic_server", &ddesc, "a server task ended or panicked".into());
+        for (id, q, client, kind) in &sent {
+            let mine: Vec<&Vec<u8>> = outv.iter().filter(|(_, d)| d.len() >= 2 && d[0] == (*id >> 8) as u8 && d[1] == *id as u8).map(|(_, d)| d).collect();
+            let case = format!("full stack dgram {} cfg={} client={} req={}", kind, opt_str(cfg), opt_str(*client), hex(q));
+            chk(recs, mine.len() >= 1, "missing_response", &case, "no datagram".into());
+            if *kind != "axfr" { chk(recs, mine.len() <= 1, "duplicate_response", &case, format!("{} datagrams", mine.len())); }
+            for d in mine {
+                recs.push(Rec::Count("n_full_stack_dgram_responses"));
+                let mut sub = vec![]; std::mem::swap(recs, &mut sub);
+                let mut o = SubOut { recs: sub };
+                // a response to a request with a TSIG record may carry one itself: the id is checked, the question only for plain requests
+                let req_for_oracle: Vec<u8> = if *kind == "query" { q.clone() } else { q[..2].to_vec() };
+                oracle_udp_rec(&mut o, &case, &req_for_oracle, *client, cfg, None, d);
+                *recs = o.recs;
+            }
+        }
+        let _ = dsrv.shutdown();
         settle(5).await;
     }
 }
